@@ -348,19 +348,36 @@ fn extract_const_value(
     ty: &ConcreteTypeId,
 ) -> Result<Vec<BigInt>, CompilationError> {
     let mut values = Vec::new();
-    let mut types_stack = vec![ty.clone()];
+    // A stack of const types to handle (`Some`) and of markers for leaving a const type (`None`).
+    let mut types_stack = vec![Some(ty.clone())];
+    // The const types on the path from `ty` to the const type currently handled. A type that is
+    // declared with its own type info may refer to types declared later, including itself.
+    let mut types_path = vec![];
     while let Some(ty) = types_stack.pop() {
+        let Some(ty) = ty else {
+            types_path.pop();
+            continue;
+        };
         let CoreTypeConcrete::Const(const_type) = program_info.registry.get_type(&ty).unwrap()
         else {
             return Err(CompilationError::UnsupportedConstType);
         };
+        if program_info.type_sizes.get(&const_type.inner_ty) == Some(&0) {
+            // A zero-sized value has no cells - there is no need to go over its members.
+            continue;
+        }
+        if types_path.contains(&ty) {
+            return Err(CompilationError::ConstDataMismatch);
+        }
+        types_path.push(ty.clone());
+        types_stack.push(None);
         let inner_type = program_info.registry.get_type(&const_type.inner_ty).unwrap();
         match inner_type {
             CoreTypeConcrete::Struct(_) => {
                 // Add the struct members' types to the stack in reverse order.
                 for arg in const_type.inner_data.iter().rev() {
                     match arg {
-                        GenericArg::Type(arg_ty) => types_stack.push(arg_ty.clone()),
+                        GenericArg::Type(arg_ty) => types_stack.push(Some(arg_ty.clone())),
                         _ => return Err(CompilationError::ConstDataMismatch),
                     }
                 }
@@ -383,14 +400,14 @@ fn extract_const_value(
                             // Subtract 1 due to the variant selector.
                             full_enum_size - variant_size - 1,
                         ));
-                        types_stack.push(ty.clone());
+                        types_stack.push(Some(ty.clone()));
                     }
                     _ => return Err(CompilationError::ConstDataMismatch),
                 }
             }
             CoreTypeConcrete::NonZero(_) => match &const_type.inner_data[..] {
                 [GenericArg::Type(inner)] => {
-                    types_stack.push(inner.clone());
+                    types_stack.push(Some(inner.clone()));
                 }
                 _ => return Err(CompilationError::ConstDataMismatch),
             },
@@ -566,7 +583,7 @@ pub fn compile(
                         metadata,
                         type_sizes: &program_info.type_sizes,
                         circuits_info: &circuits_info,
-                        const_data_values: &|ty| extract_const_value(program_info, ty).unwrap(),
+                        const_data_values: &|ty| extract_const_value(program_info, ty).ok(),
                     },
                     invocation,
                     libfunc,
